@@ -26,6 +26,9 @@ static const char *g_phase = "";
 static char g_phase_buf[160];
 static void phase(const char *what, const std::string &arg = "") { snprintf(g_phase_buf, sizeof g_phase_buf, "%s %s", what, arg.c_str()); g_phase = g_phase_buf; }
 
+#define I10 int64_t, int64_t, int64_t, int64_t, int64_t, int64_t, int64_t, int64_t, int64_t, int64_t
+typedef int64_t (*wide_fn)(I10, I10, I10, I10, I10, I10, I10);   // 70 integer parameters
+#define V10(a, b) a[b], a[b + 1], a[b + 2], a[b + 3], a[b + 4], a[b + 5], a[b + 6], a[b + 7], a[b + 8], a[b + 9]
 typedef int64_t (*universal_fn)(int64_t, int64_t, int64_t, int64_t, int64_t, int64_t, int64_t, int64_t, double, double, double, double, double, double, double, double);
 
 // ---------------------------------------------------------------------------------------------- fault handler
@@ -504,7 +507,7 @@ struct LcSim : Harness {
     if (interp && !allow_lazybb_then_interp && iface == 4) return;   // lazy-bb function given to MIR_interp: C03's second finding
     if (!interp && !allow_interp_then_gen && iface == 3 && f->interp_runs > 0 && f->generated == 0) return;  // lazy generation after interpretation
     const Json &def = *f->def; int na = (int) def.geti("na"), nd = (int) def.geti("nd");
-    std::vector<int64_t> args; for (int i = 0; i < na; i++) { int64_t v = op.size() > 2 && (size_t) i < op[2].size() ? op[2][(size_t) i].num() : i + 1; if (i == 0 && def.geti("fuel")) v = ((uint64_t) v % 4); args.push_back(v); }
+    std::vector<int64_t> args; for (int i = 0; i < na; i++) { int64_t v = op.size() > 2 && (size_t) i < op[2].size() ? op[2][(size_t) i].num() : i * 1001 + 1; if (i == 0 && def.geti("fuel")) v = ((uint64_t) v % 4); args.push_back(v); }
     // model first (it never crashes)
     model.log.clear(); model.entered.clear(); model.steps = 0; model.overrun = false; model.depth = 0; mdepth = 0;
     int64_t want = model.call(def, args);
@@ -541,14 +544,18 @@ struct LcSim : Harness {
     ext_log.clear(); ext_depth = 0; int64_t got;
     phase(interp ? "MIR_interp" : "call through address", n + fmt(" (iface %d, opt %d)", iface, opt_level));
     if (interp) {
-      MIR_val_t res, vals[24]; for (int i = 0; i < na; i++) vals[i].i = args[(size_t) i]; for (int i = 0; i < nd; i++) vals[na + i].d = 2.0 + i;
-      MIR_interp_arr(ctx, f->item, &res, (size_t) (na + nd), vals); got = res.i; f->interp_runs++; C->count("interp_runs");
+      MIR_val_t res, vals[80]; memset(vals, 0, sizeof vals); for (int i = 0; i < na; i++) vals[i].i = args[(size_t) i]; for (int i = 0; i < nd; i++) vals[na + i].d = 2.0 + i;
+      if (clock_ticks & 1) MIR_interp_arr(ctx, f->item, &res, (size_t) (na + nd), vals);
+      else { C->count("interp_variadic_entry"); MIR_interp(ctx, f->item, &res, (size_t) (na + nd), V10(vals, 0), V10(vals, 10), V10(vals, 20), V10(vals, 30), V10(vals, 40), V10(vals, 50), V10(vals, 60), V10(vals, 70)); }  /* both entry points (they size the argument buffer separately) */
+      got = res.i; f->interp_runs++; C->count("interp_runs");
       if (f->generated) C->count("interp_after_generation");
     } else {
-      int64_t a[8] = {0}; for (int i = 0; i < na && i < 8; i++) a[i] = args[(size_t) i];
+      int64_t a[70] = {0}; for (int i = 0; i < na && i < 70; i++) a[i] = args[(size_t) i];
       void *addr = f->item->addr;
       if (f->addr_seen && f->addr_seen != addr) { out.fail("public_address_changed", "call", fmt("public address of %s changed from %p to %p", n.c_str(), f->addr_seen, addr)); return; }
-      got = ((universal_fn) addr)(a[0], a[1], a[2], a[3], a[4], a[5], a[6], a[7], 2.0, 3.0, 4.0, 5.0, 6.0, 7.0, 8.0, 9.0); f->addr_calls++; C->count("address_calls");
+      if (na > 8) { got = ((wide_fn) addr)(V10(a, 0), V10(a, 10), V10(a, 20), V10(a, 30), V10(a, 40), V10(a, 50), V10(a, 60)); C->count("wide_function_called"); }
+      else got = ((universal_fn) addr)(a[0], a[1], a[2], a[3], a[4], a[5], a[6], a[7], 2.0, 3.0, 4.0, 5.0, 6.0, 7.0, 8.0, 9.0);
+      f->addr_calls++; C->count("address_calls");
       if (iface == 3 && f->addr_calls == 1) C->count("gen_lazy_on_first_call");
       if (iface == 4) f->lazybb_entered = true;
     }
@@ -651,7 +658,7 @@ struct LcSim : Harness {
     bool big = r.chance(1, 6);   // large bodies: code that spans pages, many switch tables (absolute-address relocations)
     if (big) { go.body = (int) r.range(20, 70); go.nfuncs = (int) r.range(2, 5); }
     // swarm: feature subset per run
-    go.lref = r.chance(1, 2); go.jt = r.chance(1, 2); go.sw = r.chance(2, 3); go.icall = r.chance(1, 2); go.ext = r.chance(2, 3); go.mem = r.chance(1, 2); go.loops = r.chance(2, 3); go.doubles = r.chance(1, 3); go.recursion = r.chance(1, 2); go.extn = r.chance(1, 4);
+    go.lref = r.chance(1, 2); go.jt = r.chance(1, 2); go.sw = r.chance(2, 3); go.icall = r.chance(1, 2); go.ext = r.chance(2, 3); go.mem = r.chance(1, 2); go.loops = r.chance(2, 3); go.doubles = r.chance(1, 3); go.recursion = r.chance(1, 2); go.extn = r.chance(1, 4); go.wide = r.chance(1, 8);
     if (big) { go.sw = true; go.sw_weight = 30; go.recursion = false; }
     go.blocked = r.coin();
     prog::Generator g(r, go); Json prog = g.program(); prog::protect_fuel(prog);
